@@ -121,6 +121,7 @@ def program_start(ctx):
     ck.cov["paths"] = len(outs)
     ck.floor("success paths", len(oks), 10)
     obad = sbad = abad = slot_bad = space_bad = None
+    no_model = None
     n_slot = 0
     # ---- retry: a failed creation of the stack area is not the function's result
     rbad = None
@@ -149,7 +150,10 @@ def program_start(ctx):
         # the layout vector = the first vector pushed to
         pushes = [e for e in evs if e[0] == "push"]
         if not pushes:
-            obad = obad or "no layout pushes"
+            if any(e[0] == "push" for o2 in oks for e in o2.path.events):
+                obad = obad or "no layout pushes"
+            else:
+                no_model = "the frame is not built by pushing to a vector: outside the layout model"
             continue
         layout_loc = pushes[0][1]
         lay = [e for e in pushes if e[1] == layout_loc]
@@ -229,14 +233,22 @@ def program_start(ctx):
                     extra = {k_: v for k_, v in size[0].items() if top[0].get(k_, 0) != v}
                     if any(k_[0] in ("len", "bin") or "len" in repr(k_) for k_ in extra):
                         space_bad = space_bad or "frame top is computed from `length`; the 8*n extension of the area lies above it"
-    if n_slot == 0:
+    if n_slot == 0 and not no_model:
         slot_bad = slot_bad or "no exactly-unrolled frame path"
+    if no_model and not (obad or slot_bad or space_bad):
+        # a frame assembled in some other way (iterator chains, a pop loop, ...): the layout rules have nothing to judge.
+        # Not a verdict on the code: recorded as undecided, the alignment / retry / search rules still apply
+        for rule in ("C17.order", "C17.slot", "C17.space"):
+            ck.undecided_(rule, "api=init_stack_program_start", no_model)
+        ck.cov["layout_model_applies"] = False
     for rule, bad, what in (
             ("C17.order", obad, None), ("C17.strings", sbad, None), ("C17.align", abad, None),
             ("C17.slot", slot_bad, "entry frame follows the emulator's shifted stack convention, not the hardware's"),
             ("C17.space", space_bad, "the space left below RSP shrinks with the number of arguments: long lists fail")):
         if bad:
             ck.violation(rule, "api=init_stack_program_start", bad, where=where, what=what or bad)
+        elif no_model and rule in ("C17.order", "C17.slot", "C17.space"):
+            continue
         else:
             ck.ok(rule, "api=init_stack_program_start")
     ck.sample({"rule": "C17", "paths": len(outs), "success_paths": len(oks), "exact_frame_paths": n_slot})
